@@ -447,10 +447,15 @@ func ruleKeyOrder(c *Ctx) {
 	}
 	// the store that publishes the key list
 	var pub *ssa.Store
+	keysField := "lastKeys"
 	allInstrs(obj, func(i ssa.Instruction) {
 		if st, ok := i.(*ssa.Store); ok {
-			if fa, ok := st.Addr.(*ssa.FieldAddr); ok && fieldOfAddr(fa).Field == "lastKeys" {
-				pub = st
+			// the decoder state's []string field: the key list (whatever it is called)
+			if fa, ok := st.Addr.(*ssa.FieldAddr); ok && fieldOfAddr(fa).Type == "decodeState" {
+				if sl, ok := derefPtr(fa.Type()).Underlying().(*types.Slice); ok && isStringType(sl.Elem()) {
+					pub = st
+					keysField = fieldOfAddr(fa).Field
+				}
 			}
 		}
 	})
@@ -547,7 +552,7 @@ func ruleKeyOrder(c *Ctx) {
 	key = "object: the list is a local of the call (nested objects cannot clobber it)"
 	bad := ""
 	for _, ap := range appends {
-		if _, fr, ok := fieldLoad(ap.Call.Args[0]); ok && fr.Field == "lastKeys" {
+		if _, fr, ok := fieldLoad(ap.Call.Args[0]); ok && fr.Field == keysField {
 			bad = "keys are appended directly to lastKeys at " + b.posOf(ap) + ": a nested map-typed object overwrites the outer list"
 		}
 	}
@@ -566,13 +571,30 @@ func ruleKeyOrder(c *Ctx) {
 		bad = "lastKeys is stored inside a loop"
 	}
 	ctl := false
-	for _, e := range b.controlDeps(pub.Block()) {
-		if iff, ok := e.From.Instrs[len(e.From.Instrs)-1].(*ssa.If); ok {
-			if bo, ok := iff.Cond.(*ssa.BinOp); ok && bo.Op == token.EQL {
-				if call, ok := bo.X.(*ssa.Call); ok && call.Call.StaticCallee() != nil && call.Call.StaticCallee().Name() == "Kind" {
-					ctl = true
-				}
-			}
+	for _, bb := range obj.Blocks {
+		iff, ok := lastInstr(bb).(*ssa.If)
+		if !ok {
+			continue
+		}
+		cv, neg := stripNot(iff.Cond)
+		bo, ok := cv.(*ssa.BinOp)
+		if !ok || (bo.Op != token.EQL && bo.Op != token.NEQ) {
+			continue
+		}
+		call, ok := bo.X.(*ssa.Call)
+		if !ok || call.Call.StaticCallee() == nil || call.Call.StaticCallee().Name() != "Kind" {
+			continue
+		}
+		// the edge on which the kind IS the constant
+		eq := 0
+		if bo.Op == token.NEQ {
+			eq = 1
+		}
+		if neg {
+			eq = 1 - eq
+		}
+		if edgeDominates(bb, eq, pub.Block()) {
+			ctl = true
 		}
 	}
 	if !ctl && bad == "" {
